@@ -307,6 +307,11 @@ func (r Stack) Swap(i, j int) {
 }
 
 func (r *stack) swap(i, j int) {
+	// the bounds must be tested against the
+	// content that is actually swapped: lock first.
+	r.lock()
+	defer r.unlock()
+
 	if ok := 0 <= i && i < r.ulen(); !ok {
 		return
 	} else if ok = 0 <= j && j < r.ulen(); !ok {
@@ -315,9 +320,6 @@ func (r *stack) swap(i, j int) {
 
 	i++
 	j++
-
-	r.lock()
-	defer r.unlock()
 
 	(*r)[i], (*r)[j] = (*r)[j], (*r)[i]
 }
